@@ -15,15 +15,39 @@ open Regress Regress.IR Regress.Parse Regress.ESG
 /-! ## The fragment -/
 
 /-- What may follow a `(` (`nm`: named groups admitted — then anything may follow `(?<`). -/
-def parenOk (nm : Bool) : List Nat → Bool
+def parenOk (nm md : Bool) : List Nat → Bool
   | 0x3F :: 0x3C :: x :: _ => x == 0x3D || x == 0x21 || nm
   | 0x3F :: 0x3C :: [] => nm
-  | 0x3F :: x :: _ => !(x == 0x69 || x == 0x6D || x == 0x73 || x == 0x2D)
+  | 0x3F :: x :: _ => !(x == 0x69 || x == 0x6D || x == 0x73 || x == 0x2D) || md
   | _ => true
 
 /-- What may follow a `\` (where escapes are admitted at all): anything but `p`, `P` (property
 escapes) and — unless named groups are admitted — `k` (named back-references). -/
 def escOk (nm : Bool) (x : Nat) : Bool := !(x == 0x70 || x == 0x50 || (x == 0x6B && !nm))
+
+/-- The lexical condition on what follows a legacy `\\u`. -/
+def uOkL (r : List Nat) : Bool :=
+  (match r with | 0x7B :: _ => false | _ => true) &&
+  (match ESG.hex4 r with | some (v, 0x5C :: 0x75 :: _) => !ESG.isLead v | _ => true)
+
+/-- What may follow a `\\` outside a class in Annex B mode (for the proof; everything else is covered):
+`\\c` is followed by a letter (otherwise the crate consumes `\\c` as two atoms where the grammar
+consumes `\\` only); a decimal escape `\\1`…`\\9` has a single digit (otherwise the crate may read a
+longer back-reference than the grammar's octal escape); `\\u` satisfies `uOkL`. -/
+def legEscOk (x : Nat) (r : List Nat) : Bool :=
+  if x == 0x63 then (match r with | l :: _ => ESG.isAsciiLetter l | [] => false)
+  else if 0x31 ≤ x && x ≤ 0x39 then (match r with | d :: _ => !ESG.isDigit d | [] => true)
+  else if x == 0x75 then uOkL r
+  else true
+
+/-- What may follow a `\\` inside a class: under `u`, `p` / `P` only if property escapes are admitted;
+in Annex B mode (`lk`) anything, but `\\u` must satisfy `uOkL` and `\\c` must be followed by a
+ClassControlLetter (letter, digit, `_`; otherwise the `\\` stands for itself and `c` is the next atom,
+which the two-character escape convention of the lexical scanners does not describe). -/
+def inClsOk (pr lk : Bool) (x : Nat) (r : List Nat) : Bool :=
+  (!(x == 0x70 || x == 0x50) || pr || lk) && (!lk || x != 0x75 || uOkL r) &&
+  (!lk || x != 0x63 ||
+    (match r with | l :: _ => ESG.isAsciiLetter l || ESG.isDigit l || l == 0x5F | [] => false))
 
 /-- Which features of the pattern language are admitted: `e` escapes, `k` character classes, `nm`
 named groups. -/
@@ -32,38 +56,52 @@ structure Feat where
   k : Bool
   /-- named groups `(?<name>…)` and named back-references `\k<name>` -/
   nm : Bool := false
+  /-- modifier groups `(?ims-ims:…)` -/
+  md : Bool := false
+  /-- property escapes `\\p{…}` / `\\P{…}` (UnicodeMode) -/
+  pr : Bool := false
+  /-- Annex B escapes outside classes (neither `u` nor `v`) -/
+  le : Bool := false
+  /-- Annex B character classes (neither `u` nor `v`) -/
+  lk : Bool := false
+  /-- class sets (flag `v`): brackets nest -/
+  vk : Bool := false
 
-/-- The lexical fragment, as a scanner with two modes (`true`: inside a character class).
-`e`: escapes admitted; `k`: character classes admitted.  Outside a class: no named group, no
-modifier group; a `\` (only if `e`) makes the next character part of the escape; a `[` (only if `k`)
-opens a class.  Inside a class: a `\` makes the next character part of the escape (which must not be
-`p` / `P`), the first other `]` closes the class. -/
-def fragGo (F : Feat) : Bool → List Nat → Bool
-  | true, [] => true
-  | true, 0x5C :: x :: r => !(x == 0x70 || x == 0x50) && fragGo F true r
-  | true, 0x5D :: r => fragGo F false r
-  | true, _ :: r => fragGo F true r
-  | false, [] => true
-  | false, 0x5C :: x :: r => F.e && escOk F.nm x && fragGo F false r
-  | false, 0x5B :: r => F.k && fragGo F true r
-  | false, c :: r => (c != 0x5C || F.e) && (c != 0x28 || parenOk F.nm r) && fragGo F false r
+/-- The lexical fragment, as a scanner whose mode is the bracket depth (`0`: outside a class).
+`e`: escapes admitted; `k` / `lk` / `vk`: character classes admitted (UnicodeMode without `v`, Annex B,
+class sets of the flag `v`).  Outside a class: a `\` makes the next character part of the escape; a
+`[` opens a class.  Inside a class: a `\` makes the next character part of the escape, a `]` closes
+one level, and — under `vk` only — a `[` opens a nested class. -/
+def fragGo (F : Feat) : Nat → List Nat → Bool
+  | _ + 1, [] => true
+  | d + 1, 0x5C :: x :: r => (inClsOk F.pr F.lk x r && (!(F.lk && F.nm) || x != 0x6B)) && fragGo F (d + 1) r
+  | d + 1, 0x5D :: r => fragGo F d r
+  | d + 1, 0x5B :: r => if F.vk then fragGo F (d + 2) r else fragGo F (d + 1) r
+  | d + 1, _ :: r => fragGo F (d + 1) r
+  | 0, [] => true
+  | 0, 0x5C :: x :: r =>
+    ((F.e && (escOk F.nm x || (F.pr && (x == 0x70 || x == 0x50)))) ||
+      (F.le && (legEscOk x r && (!F.nm || x != 0x6B)))) && fragGo F 0 r
+  | 0, 0x5B :: r => (F.k || F.lk || F.vk) && fragGo F 1 r
+  | 0, c :: r => (c != 0x5C || F.e || F.le) && (c != 0x28 || parenOk F.nm F.md r) && fragGo F 0 r
 
-def fragCore (F : Feat) (l : List Nat) : Bool := fragGo F false l
+def fragCore (F : Feat) (l : List Nat) : Bool := fragGo F 0 l
 
-/-- Nesting depth, as a scanner: the largest excess of `(` over `)` in a prefix, counting only
-parentheses that are neither escaped nor inside a class. -/
-def mdGo : Bool → List Nat → Nat
-  | true, [] => 0
-  | true, 0x5C :: _ :: r => mdGo true r
-  | true, 0x5D :: r => mdGo false r
-  | true, _ :: r => mdGo true r
-  | false, [] => 0
-  | false, 0x5C :: _ :: r => mdGo false r
-  | false, 0x5B :: r => mdGo true r
-  | false, c :: r =>
-    if c == 0x28 then mdGo false r + 1 else if c == 0x29 then mdGo false r - 1 else mdGo false r
+/-- Nesting depth of parentheses, as a scanner: the largest excess of `(` over `)` in a prefix,
+counting only parentheses that are neither escaped nor inside a class (`v`: brackets nest). -/
+def mdGo (v : Bool) : Nat → List Nat → Nat
+  | _ + 1, [] => 0
+  | d + 1, 0x5C :: _ :: r => mdGo v (d + 1) r
+  | d + 1, 0x5D :: r => mdGo v d r
+  | d + 1, 0x5B :: r => if v then mdGo v (d + 2) r else mdGo v (d + 1) r
+  | d + 1, _ :: r => mdGo v (d + 1) r
+  | 0, [] => 0
+  | 0, 0x5C :: _ :: r => mdGo v 0 r
+  | 0, 0x5B :: r => mdGo v 1 r
+  | 0, c :: r =>
+    if c == 0x28 then mdGo v 0 r + 1 else if c == 0x29 then mdGo v 0 r - 1 else mdGo v 0 r
 
-def md (l : List Nat) : Nat := mdGo false l
+def md (v : Bool) (l : List Nat) : Nat := mdGo v 0 l
 
 /-- After `(?`: the group name, if a well-formed `<name>` follows (the crate's
 `try_consume_named_capture_group_name`; the grammar's `GroupName` agrees, `groupName_sim`). -/
@@ -74,32 +112,34 @@ def namedAhead (r : List Nat) : Option (List Nat) :=
 
 /-- Number of capturing groups, as a scanner: `(` not followed by `?`, neither escaped nor inside a
 class, or `(?<name>` (every other `(?` opens a non-capturing group or a look-around, or is an error). -/
-def capGo : Bool → List Nat → Nat
-  | true, [] => 0
-  | true, 0x5C :: _ :: r => capGo true r
-  | true, 0x5D :: r => capGo false r
-  | true, _ :: r => capGo true r
-  | false, [] => 0
-  | false, 0x5C :: _ :: r => capGo false r
-  | false, 0x5B :: r => capGo true r
-  | false, 0x28 :: 0x3F :: r => (if (namedAhead r).isSome then 1 else 0) + capGo false r
-  | false, c :: r => (if c == 0x28 then 1 else 0) + capGo false r
+def capGo (v : Bool) : Nat → List Nat → Nat
+  | _ + 1, [] => 0
+  | d + 1, 0x5C :: _ :: r => capGo v (d + 1) r
+  | d + 1, 0x5D :: r => capGo v d r
+  | d + 1, 0x5B :: r => if v then capGo v (d + 2) r else capGo v (d + 1) r
+  | d + 1, _ :: r => capGo v (d + 1) r
+  | 0, [] => 0
+  | 0, 0x5C :: _ :: r => capGo v 0 r
+  | 0, 0x5B :: r => capGo v 1 r
+  | 0, 0x28 :: 0x3F :: r => (if (namedAhead r).isSome then 1 else 0) + capGo v 0 r
+  | 0, c :: r => (if c == 0x28 then 1 else 0) + capGo v 0 r
 
-def capOpens (l : List Nat) : Nat := capGo false l
+def capOpens (v : Bool) (l : List Nat) : Nat := capGo v 0 l
 
 /-- The group names of the pattern in order of appearance, as a scanner. -/
-def namesGo : Bool → List Nat → List (List Nat)
-  | true, [] => []
-  | true, 0x5C :: _ :: r => namesGo true r
-  | true, 0x5D :: r => namesGo false r
-  | true, _ :: r => namesGo true r
-  | false, [] => []
-  | false, 0x5C :: _ :: r => namesGo false r
-  | false, 0x5B :: r => namesGo true r
-  | false, 0x28 :: 0x3F :: r => (namedAhead r).toList ++ namesGo false r
-  | false, _ :: r => namesGo false r
+def namesGo (v : Bool) : Nat → List Nat → List (List Nat)
+  | _ + 1, [] => []
+  | d + 1, 0x5C :: _ :: r => namesGo v (d + 1) r
+  | d + 1, 0x5D :: r => namesGo v d r
+  | d + 1, 0x5B :: r => if v then namesGo v (d + 2) r else namesGo v (d + 1) r
+  | d + 1, _ :: r => namesGo v (d + 1) r
+  | 0, [] => []
+  | 0, 0x5C :: _ :: r => namesGo v 0 r
+  | 0, 0x5B :: r => namesGo v 1 r
+  | 0, 0x28 :: 0x3F :: r => (namedAhead r).toList ++ namesGo v 0 r
+  | 0, _ :: r => namesGo v 0 r
 
-def lexNames (l : List Nat) : List (List Nat) := namesGo false l
+def lexNames (v : Bool) (l : List Nat) : List (List Nat) := namesGo v 0 l
 
 /-- Number of `(`. -/
 def opens : List Nat → Nat
@@ -111,67 +151,105 @@ def quants : List Nat → Nat
   | [] => 0
   | c :: r => if c == 0x2A || c == 0x2B || c == 0x3F || c == 0x7B then quants r + 1 else quants r
 
+/-- Number of `[` (bounds the nesting of class sets under `v`). -/
+def brk : List Nat → Nat
+  | [] => 0
+  | c :: r => if c == 0x5B then brk r + 1 else brk r
+
 /-! ### Equations of the scanners -/
 
-theorem mdGo_esc (m : Bool) (x : Nat) (r : List Nat) : mdGo m (0x5C :: x :: r) = mdGo m r := by
+theorem mdGo_esc (v : Bool) (m : Nat) (x : Nat) (r : List Nat) : mdGo v m (0x5C :: x :: r) = mdGo v m r := by
   cases m <;> rw [mdGo]
 
-theorem mdGo_in {c : Nat} (r : List Nat) (h1 : c ≠ 0x5C) (h2 : c ≠ 0x5D) :
-    mdGo true (c :: r) = mdGo true r := by
+theorem mdGo_in (v : Bool) (d : Nat) {c : Nat} (r : List Nat) (h1 : c ≠ 0x5C) (h2 : c ≠ 0x5D)
+    (h3 : v = false ∨ c ≠ 0x5B) : mdGo v (d + 1) (c :: r) = mdGo v (d + 1) r := by
+  by_cases hb : c = 0x5B
+  · subst hb
+    rcases h3 with h | h
+    · subst h; rw [mdGo]; rfl
+    · exact absurd rfl h
+  · rw [mdGo]
+    · intro x r' h; exact absurd h h1
+    · intro h; exact absurd h h2
+    · intro h; exact absurd h hb
+
+theorem mdGo_nest (d : Nat) (r : List Nat) : mdGo true (d + 1) (0x5B :: r) = mdGo true (d + 2) r := by
+  rw [mdGo]; rfl
+
+theorem mdGo_close (v : Bool) (d : Nat) (r : List Nat) : mdGo v (d + 1) (0x5D :: r) = mdGo v d r := by
+  rw [mdGo]
+theorem mdGo_open (v : Bool) (r : List Nat) : mdGo v 0 (0x5B :: r) = mdGo v 1 r := by rw [mdGo]
+
+theorem mdGo_out (v : Bool) {c : Nat} (r : List Nat) (h1 : c ≠ 0x5C) (h2 : c ≠ 0x5B) :
+    mdGo v 0 (c :: r) =
+      if c == 0x28 then mdGo v 0 r + 1 else if c == 0x29 then mdGo v 0 r - 1 else mdGo v 0 r := by
   rw [mdGo]
   · intro x r' h; exact absurd h h1
   · intro h; exact absurd h h2
 
-theorem mdGo_close (r : List Nat) : mdGo true (0x5D :: r) = mdGo false r := by rw [mdGo]
-theorem mdGo_open (r : List Nat) : mdGo false (0x5B :: r) = mdGo true r := by rw [mdGo]
-
-theorem mdGo_out {c : Nat} (r : List Nat) (h1 : c ≠ 0x5C) (h2 : c ≠ 0x5B) :
-    mdGo false (c :: r) =
-      if c == 0x28 then mdGo false r + 1 else if c == 0x29 then mdGo false r - 1 else mdGo false r := by
-  rw [mdGo]
-  · intro x r' h; exact absurd h h1
-  · intro h; exact absurd h h2
-
-theorem capGo_esc (m : Bool) (x : Nat) (r : List Nat) : capGo m (0x5C :: x :: r) = capGo m r := by
+theorem capGo_esc (v : Bool) (m : Nat) (x : Nat) (r : List Nat) : capGo v m (0x5C :: x :: r) = capGo v m r := by
   cases m <;> rw [capGo]
 
-theorem capGo_in {c : Nat} (r : List Nat) (h1 : c ≠ 0x5C) (h2 : c ≠ 0x5D) :
-    capGo true (c :: r) = capGo true r := by
+theorem capGo_in (v : Bool) (d : Nat) {c : Nat} (r : List Nat) (h1 : c ≠ 0x5C) (h2 : c ≠ 0x5D)
+    (h3 : v = false ∨ c ≠ 0x5B) : capGo v (d + 1) (c :: r) = capGo v (d + 1) r := by
+  by_cases hb : c = 0x5B
+  · subst hb
+    rcases h3 with h | h
+    · subst h; rw [capGo]; rfl
+    · exact absurd rfl h
+  · rw [capGo]
+    · intro x r' h; exact absurd h h1
+    · intro h; exact absurd h h2
+    · intro h; exact absurd h hb
+
+theorem capGo_nest (d : Nat) (r : List Nat) : capGo true (d + 1) (0x5B :: r) = capGo true (d + 2) r := by
+  rw [capGo]; rfl
+
+theorem capGo_close (v : Bool) (d : Nat) (r : List Nat) : capGo v (d + 1) (0x5D :: r) = capGo v d r := by
   rw [capGo]
-  · intro x r' h; exact absurd h h1
-  · intro h; exact absurd h h2
+theorem capGo_open (v : Bool) (r : List Nat) : capGo v 0 (0x5B :: r) = capGo v 1 r := by rw [capGo]
+theorem capGo_nil (v : Bool) (m : Nat) : capGo v m [] = 0 := by cases m <;> rw [capGo]
 
-theorem capGo_close (r : List Nat) : capGo true (0x5D :: r) = capGo false r := by rw [capGo]
-theorem capGo_open (r : List Nat) : capGo false (0x5B :: r) = capGo true r := by rw [capGo]
-theorem capGo_nil (m : Bool) : capGo m [] = 0 := by cases m <;> rw [capGo]
+theorem capOpens_esc (v : Bool) (x : Nat) (r : List Nat) : capOpens v (0x5C :: x :: r) = capOpens v r :=
+  capGo_esc v 0 x r
 
-theorem capOpens_esc (x : Nat) (r : List Nat) : capOpens (0x5C :: x :: r) = capOpens r := capGo_esc false x r
-
-theorem capOpens_q (r : List Nat) :
-    capOpens (0x28 :: 0x3F :: r) = (if (namedAhead r).isSome then 1 else 0) + capOpens r := by
+theorem capOpens_q (v : Bool) (r : List Nat) :
+    capOpens v (0x28 :: 0x3F :: r) = (if (namedAhead r).isSome then 1 else 0) + capOpens v r := by
   unfold capOpens; rw [capGo]
 
-theorem namesGo_esc (m : Bool) (x : Nat) (r : List Nat) : namesGo m (0x5C :: x :: r) = namesGo m r := by
+theorem namesGo_esc (v : Bool) (m : Nat) (x : Nat) (r : List Nat) :
+    namesGo v m (0x5C :: x :: r) = namesGo v m r := by
   cases m <;> rw [namesGo]
 
-theorem namesGo_in {c : Nat} (r : List Nat) (h1 : c ≠ 0x5C) (h2 : c ≠ 0x5D) :
-    namesGo true (c :: r) = namesGo true r := by
+theorem namesGo_in (v : Bool) (d : Nat) {c : Nat} (r : List Nat) (h1 : c ≠ 0x5C) (h2 : c ≠ 0x5D)
+    (h3 : v = false ∨ c ≠ 0x5B) : namesGo v (d + 1) (c :: r) = namesGo v (d + 1) r := by
+  by_cases hb : c = 0x5B
+  · subst hb
+    rcases h3 with h | h
+    · subst h; rw [namesGo]; rfl
+    · exact absurd rfl h
+  · rw [namesGo]
+    · intro x r' h; exact absurd h h1
+    · intro h; exact absurd h h2
+    · intro h; exact absurd h hb
+
+theorem namesGo_nest (d : Nat) (r : List Nat) : namesGo true (d + 1) (0x5B :: r) = namesGo true (d + 2) r := by
+  rw [namesGo]; rfl
+
+theorem namesGo_close (v : Bool) (d : Nat) (r : List Nat) : namesGo v (d + 1) (0x5D :: r) = namesGo v d r := by
   rw [namesGo]
-  · intro x r' h; exact absurd h h1
-  · intro h; exact absurd h h2
+theorem namesGo_open (v : Bool) (r : List Nat) : namesGo v 0 (0x5B :: r) = namesGo v 1 r := by rw [namesGo]
+theorem namesGo_nil (v : Bool) (m : Nat) : namesGo v m [] = [] := by cases m <;> rw [namesGo]
 
-theorem namesGo_close (r : List Nat) : namesGo true (0x5D :: r) = namesGo false r := by rw [namesGo]
-theorem namesGo_open (r : List Nat) : namesGo false (0x5B :: r) = namesGo true r := by rw [namesGo]
-theorem namesGo_nil (m : Bool) : namesGo m [] = [] := by cases m <;> rw [namesGo]
+theorem lexNames_esc (v : Bool) (x : Nat) (r : List Nat) : lexNames v (0x5C :: x :: r) = lexNames v r :=
+  namesGo_esc v 0 x r
 
-theorem lexNames_esc (x : Nat) (r : List Nat) : lexNames (0x5C :: x :: r) = lexNames r := namesGo_esc false x r
-
-theorem lexNames_q (r : List Nat) :
-    lexNames (0x28 :: 0x3F :: r) = (namedAhead r).toList ++ lexNames r := by
+theorem lexNames_q (v : Bool) (r : List Nat) :
+    lexNames v (0x28 :: 0x3F :: r) = (namedAhead r).toList ++ lexNames v r := by
   unfold lexNames; rw [namesGo]
 
-theorem lexNames_plain {c : Nat} (r : List Nat) (h2 : c ≠ 0x5C) (h3 : c ≠ 0x5B)
-    (h1 : c = 0x28 → ∀ r', r ≠ 0x3F :: r') : lexNames (c :: r) = lexNames r := by
+theorem lexNames_plain (v : Bool) {c : Nat} (r : List Nat) (h2 : c ≠ 0x5C) (h3 : c ≠ 0x5B)
+    (h1 : c = 0x28 → ∀ r', r ≠ 0x3F :: r') : lexNames v (c :: r) = lexNames v r := by
   unfold lexNames
   rw [namesGo]
   · intro x r' h; exact absurd h h2
@@ -198,7 +276,8 @@ theorem namedAhead_none {r : List Nat}
     · simp [tryConsumeName, Parse.nameChar, Parse.isChar, isIdStart_bang]
   · simp [tryConsumeName, Parse.nameChar]
 
-theorem capOpens_cap {r : List Nat} (hr : ∀ r', r ≠ 0x3F :: r') : capOpens (0x28 :: r) = capOpens r + 1 := by
+theorem capOpens_cap (v : Bool) {r : List Nat} (hr : ∀ r', r ≠ 0x3F :: r') :
+    capOpens v (0x28 :: r) = capOpens v r + 1 := by
   unfold capOpens
   rw [capGo]
   · simp; omega
@@ -206,8 +285,8 @@ theorem capOpens_cap {r : List Nat} (hr : ∀ r', r ≠ 0x3F :: r') : capOpens (
   · intro h; cases h
   · intro r' _ h; exact hr r' h
 
-theorem capOpens_plain {c : Nat} (r : List Nat) (h1 : c ≠ 0x28) (h2 : c ≠ 0x5C) (h3 : c ≠ 0x5B) :
-    capOpens (c :: r) = capOpens r := by
+theorem capOpens_plain (v : Bool) {c : Nat} (r : List Nat) (h1 : c ≠ 0x28) (h2 : c ≠ 0x5C) (h3 : c ≠ 0x5B) :
+    capOpens v (c :: r) = capOpens v r := by
   unfold capOpens
   rw [capGo]
   · simp [h1]
@@ -216,28 +295,68 @@ theorem capOpens_plain {c : Nat} (r : List Nat) (h1 : c ≠ 0x28) (h2 : c ≠ 0x
   · intro r' h; exact absurd h h1
 
 theorem fragGo_esc_out (F : Feat) (x : Nat) (r : List Nat) :
-    fragGo F false (0x5C :: x :: r) = (F.e && escOk F.nm x && fragGo F false r) := by rw [fragGo]
+    fragGo F 0 (0x5C :: x :: r) =
+      (((F.e && (escOk F.nm x || (F.pr && (x == 0x70 || x == 0x50)))) ||
+        (F.le && (legEscOk x r && (!F.nm || x != 0x6B)))) &&
+        fragGo F 0 r) := by rw [fragGo]
 
-theorem fragGo_esc_in (F : Feat) (x : Nat) (r : List Nat) :
-    fragGo F true (0x5C :: x :: r) = (!(x == 0x70 || x == 0x50) && fragGo F true r) := by rw [fragGo]
+theorem fragGo_esc_in (F : Feat) (d : Nat) (x : Nat) (r : List Nat) :
+    fragGo F (d + 1) (0x5C :: x :: r) =
+      ((inClsOk F.pr F.lk x r && (!(F.lk && F.nm) || x != 0x6B)) && fragGo F (d + 1) r) := by rw [fragGo]
 
-theorem fragGo_in (F : Feat) {c : Nat} (r : List Nat) (h1 : c ≠ 0x5C) (h2 : c ≠ 0x5D) :
-    fragGo F true (c :: r) = fragGo F true r := by
+theorem fragGo_in (F : Feat) (d : Nat) {c : Nat} (r : List Nat) (h1 : c ≠ 0x5C) (h2 : c ≠ 0x5D)
+    (h3 : F.vk = false ∨ c ≠ 0x5B) : fragGo F (d + 1) (c :: r) = fragGo F (d + 1) r := by
+  by_cases hb : c = 0x5B
+  · subst hb
+    rcases h3 with h | h
+    · rw [fragGo, h]; rfl
+    · exact absurd rfl h
+  · rw [fragGo]
+    · intro x r' h; exact absurd h h1
+    · intro h; exact absurd h h2
+    · intro h; exact absurd h hb
+
+theorem fragGo_nest (F : Feat) (hv : F.vk = true) (d : Nat) (r : List Nat) :
+    fragGo F (d + 1) (0x5B :: r) = fragGo F (d + 2) r := by
+  rw [fragGo, hv]; rfl
+
+theorem fragGo_close (F : Feat) (d : Nat) (r : List Nat) : fragGo F (d + 1) (0x5D :: r) = fragGo F d r := by
   rw [fragGo]
-  · intro x r' h; exact absurd h h1
-  · intro h; exact absurd h h2
 
-theorem fragGo_close (F : Feat) (r : List Nat) : fragGo F true (0x5D :: r) = fragGo F false r := by
-  rw [fragGo]
-
-theorem fragGo_open (F : Feat) (r : List Nat) : fragGo F false (0x5B :: r) = (F.k && fragGo F true r) := by
+theorem fragGo_open (F : Feat) (r : List Nat) :
+    fragGo F 0 (0x5B :: r) = ((F.k || F.lk || F.vk) && fragGo F 1 r) := by
   rw [fragGo]
 
 theorem fragCore_esc (F : Feat) (x : Nat) (r : List Nat) :
-    fragCore F (0x5C :: x :: r) = (F.e && escOk F.nm x && fragCore F r) := fragGo_esc_out F x r
+    fragCore F (0x5C :: x :: r) =
+      (((F.e && (escOk F.nm x || (F.pr && (x == 0x70 || x == 0x50)))) ||
+        (F.le && (legEscOk x r && (!F.nm || x != 0x6B)))) &&
+        fragCore F r) := fragGo_esc_out F x r
+
+/-- A backslash in the fragment: UnicodeMode escapes or Annex B escapes are admitted, and what follows
+satisfies the respective condition. -/
+theorem fragCore_bs {F : Feat} {r0 : List Nat} (h : fragCore F (0x5C :: r0) = true) :
+    (F.e = true ∧ ∀ x r, r0 = x :: r → (escOk F.nm x || (F.pr && (x == 0x70 || x == 0x50))) = true) ∨
+    (F.le = true ∧ ∀ x r, r0 = x :: r → legEscOk x r = true ∧ (x = 0x6B → F.nm = false)) := by
+  rcases r0 with _ | ⟨x, r⟩
+  · have : (F.e || F.le) = true := by simpa [fragCore, fragGo] using h
+    rw [Bool.or_eq_true] at this
+    rcases this with h' | h'
+    · exact .inl ⟨h', fun x r e => by cases e⟩
+    · exact .inr ⟨h', fun x r e => by cases e⟩
+  · rw [fragCore_esc] at h
+    simp only [Bool.and_eq_true, Bool.or_eq_true] at h
+    rcases h.1 with h' | h'
+    · exact .inl ⟨h'.1, fun y r' e => by cases e; simpa using h'.2⟩
+    · refine .inr ⟨h'.1, fun y r' e => ?_⟩
+      cases e
+      refine ⟨h'.2.1, fun hk => ?_⟩
+      rcases h'.2.2 with h2 | h2
+      · simpa using h2
+      · exact absurd hk (by simpa using h2)
 
 theorem fragCore_cons (F : Feat) {c : Nat} (r : List Nat) (hc : c ≠ 0x5C) (hb : c ≠ 0x5B) :
-    fragCore F (c :: r) = ((c != 0x28 || parenOk F.nm r) && fragCore F r) := by
+    fragCore F (c :: r) = ((c != 0x28 || parenOk F.nm F.md r) && fragCore F r) := by
   unfold fragCore
   rw [fragGo]
   · have hb : (c != 0x5C) = true := bne_iff_ne.2 hc
@@ -245,11 +364,11 @@ theorem fragCore_cons (F : Feat) {c : Nat} (r : List Nat) (hc : c ≠ 0x5C) (hb 
   · intro x r' h; exact absurd h hc
   · intro h; exact absurd h hb
 
-theorem md_esc (x : Nat) (r : List Nat) : md (0x5C :: x :: r) = md r := mdGo_esc false x r
+theorem md_esc (v : Bool) (x : Nat) (r : List Nat) : md v (0x5C :: x :: r) = md v r := mdGo_esc v 0 x r
 
-theorem md_cons {c : Nat} (r : List Nat) (hc : c ≠ 0x5C) (hb : c ≠ 0x5B) :
-    md (c :: r) = if c == 0x28 then md r + 1 else if c == 0x29 then md r - 1 else md r :=
-  mdGo_out r hc hb
+theorem md_cons (v : Bool) {c : Nat} (r : List Nat) (hc : c ≠ 0x5C) (hb : c ≠ 0x5B) :
+    md v (c :: r) = if c == 0x28 then md v r + 1 else if c == 0x29 then md v r - 1 else md v r :=
+  mdGo_out v r hc hb
 
 theorem fragCore_tail {F : Feat} {c : Nat} {r : List Nat} (hc : c ≠ 0x5C) (hb : c ≠ 0x5B)
     (h : fragCore F (c :: r) = true) : fragCore F r = true := by
@@ -257,7 +376,7 @@ theorem fragCore_tail {F : Feat} {c : Nat} {r : List Nat} (hc : c ≠ 0x5C) (hb 
   simp at h; exact h.2
 
 theorem fragCore_head {F : Feat} {c : Nat} {r : List Nat} (hc : c ≠ 0x5C) (hb : c ≠ 0x5B)
-    (h : fragCore F (c :: r) = true) : c = 0x28 → parenOk F.nm r = true := by
+    (h : fragCore F (c :: r) = true) : c = 0x28 → parenOk F.nm F.md r = true := by
   rw [fragCore_cons F r hc hb] at h
   simp at h
   intro hc
@@ -275,21 +394,26 @@ theorem quants_append_le (p r : List Nat) : quants r ≤ quants (p ++ r) := by
   | nil => exact Nat.le_refl _
   | cons c p ih => simp only [List.cons_append, quants]; split <;> omega
 
-/-- A prefix whose removal, in scanner mode `m`, changes neither the mode, nor the nesting depth, nor
-the group count, nor membership in the fragment. -/
-structure NeutralM (F : Feat) (m : Bool) (p : List Nat) : Prop where
-  md : ∀ r, mdGo m (p ++ r) = mdGo m r
-  cap : ∀ r, capGo m (p ++ r) = capGo m r
-  names : ∀ r, namesGo m (p ++ r) = namesGo m r
+theorem brk_append_le (p r : List Nat) : brk r ≤ brk (p ++ r) := by
+  induction p with
+  | nil => exact Nat.le_refl _
+  | cons c p ih => simp only [List.cons_append, brk]; split <;> omega
+
+/-- A prefix whose removal, in scanner mode `m` (bracket depth), changes neither the mode, nor the
+nesting depth, nor the group count, nor membership in the fragment. -/
+structure NeutralM (F : Feat) (m : Nat) (p : List Nat) : Prop where
+  md : ∀ r, mdGo F.vk m (p ++ r) = mdGo F.vk m r
+  cap : ∀ r, capGo F.vk m (p ++ r) = capGo F.vk m r
+  names : ∀ r, namesGo F.vk m (p ++ r) = namesGo F.vk m r
   frag : ∀ r, fragGo F m (p ++ r) = true → fragGo F m r = true
 
 /-- Neutral outside a class. -/
-def Neutral (F : Feat) (p : List Nat) : Prop := NeutralM F false p
+def Neutral (F : Feat) (p : List Nat) : Prop := NeutralM F 0 p
 
-theorem neutralM_nil (F : Feat) (m : Bool) : NeutralM F m [] :=
+theorem neutralM_nil (F : Feat) (m : Nat) : NeutralM F m [] :=
   ⟨fun _ => rfl, fun _ => rfl, fun _ => rfl, fun _ => id⟩
 
-theorem neutralM_append {F : Feat} {m : Bool} {p q : List Nat} (hp : NeutralM F m p) (hq : NeutralM F m q) :
+theorem neutralM_append {F : Feat} {m : Nat} {p q : List Nat} (hp : NeutralM F m p) (hq : NeutralM F m q) :
     NeutralM F m (p ++ q) := by
   refine ⟨fun r => ?_, fun r => ?_, fun r => ?_, fun r h => ?_⟩
   · rw [List.append_assoc]; exact (hp.md _).trans (hq.md r)
@@ -298,64 +422,66 @@ theorem neutralM_append {F : Feat} {m : Bool} {p q : List Nat} (hp : NeutralM F 
   · rw [List.append_assoc] at h; exact hq.frag r (hp.frag _ h)
 
 theorem Neutral.md_eq {F : Feat} {p : List Nat} (hp : Neutral F p) (r : List Nat) :
-    md (p ++ r) = md r := hp.md r
+    md F.vk (p ++ r) = md F.vk r := hp.md r
 theorem Neutral.cap_eq {F : Feat} {p : List Nat} (hp : Neutral F p) (r : List Nat) :
-    capOpens (p ++ r) = capOpens r := hp.cap r
+    capOpens F.vk (p ++ r) = capOpens F.vk r := hp.cap r
 theorem Neutral.names_eq {F : Feat} {p : List Nat} (hp : Neutral F p) (r : List Nat) :
-    lexNames (p ++ r) = lexNames r := hp.names r
+    lexNames F.vk (p ++ r) = lexNames F.vk r := hp.names r
 theorem Neutral.frag' {F : Feat} {p : List Nat} (hp : Neutral F p) {r : List Nat}
     (h : fragCore F (p ++ r) = true) : fragCore F r = true := hp.frag r h
 
-theorem neutral_nil (F : Feat) : Neutral F [] := neutralM_nil F false
+theorem neutral_nil (F : Feat) : Neutral F [] := neutralM_nil F 0
 
 theorem neutral_append {F : Feat} {p q : List Nat} (hp : Neutral F p) (hq : Neutral F q) :
     Neutral F (p ++ q) := neutralM_append hp hq
 
-/-- An ordinary character in both scanner modes: no parenthesis, bracket or backslash. -/
+/-- An ordinary character in every scanner mode: no parenthesis, bracket or backslash. -/
 def Plain (c : Nat) : Prop := c ≠ 0x28 ∧ c ≠ 0x29 ∧ c ≠ 0x5C ∧ c ≠ 0x5B ∧ c ≠ 0x5D
 
 /-- Outside a class every character but `(` `)` `\` `[` is ordinary. -/
 theorem neutral_out (F : Feat) {c : Nat} (h1 : c ≠ 0x28) (h2 : c ≠ 0x29) (h3 : c ≠ 0x5C) (h4 : c ≠ 0x5B) :
     Neutral F [c] := by
-  refine ⟨fun r => ?_, fun r => capOpens_plain r h1 h3 h4,
-    fun r => lexNames_plain r h3 h4 (fun h => absurd h h1), fun r hf => fragCore_tail h3 h4 hf⟩
-  simp [mdGo_out r h3 h4, h1, h2]
+  refine ⟨fun r => ?_, fun r => capOpens_plain F.vk r h1 h3 h4,
+    fun r => lexNames_plain F.vk r h3 h4 (fun h => absurd h h1), fun r hf => fragCore_tail h3 h4 hf⟩
+  simp [mdGo_out F.vk r h3 h4, h1, h2]
 
-/-- Inside a class every character but `\` and `]` is ordinary. -/
-theorem neutralM_in (F : Feat) {c : Nat} (h1 : c ≠ 0x5C) (h2 : c ≠ 0x5D) : NeutralM F true [c] :=
-  ⟨fun r => mdGo_in r h1 h2, fun r => capGo_in r h1 h2, fun r => namesGo_in r h1 h2,
-    fun r hf => by rwa [List.singleton_append, fragGo_in F r h1 h2] at hf⟩
+/-- Inside a class every character but `\` and `]` — and, under `v`, `[` — is ordinary. -/
+theorem neutralM_in (F : Feat) (d : Nat) {c : Nat} (h1 : c ≠ 0x5C) (h2 : c ≠ 0x5D)
+    (h3 : F.vk = false ∨ c ≠ 0x5B) : NeutralM F (d + 1) [c] :=
+  ⟨fun r => mdGo_in F.vk d r h1 h2 h3, fun r => capGo_in F.vk d r h1 h2 h3, fun r => namesGo_in F.vk d r h1 h2 h3,
+    fun r hf => by rwa [List.singleton_append, fragGo_in F d r h1 h2 h3] at hf⟩
 
-theorem neutralM_plain (F : Feat) (m : Bool) {c : Nat} (h : Plain c) : NeutralM F m [c] := by
+theorem neutralM_plain (F : Feat) (m : Nat) {c : Nat} (h : Plain c) : NeutralM F m [c] := by
   obtain ⟨h1, h2, h3, h4, h5⟩ := h
   cases m with
-  | true => exact neutralM_in F h3 h5
-  | false => exact neutral_out F h1 h2 h3 h4
+  | succ d => exact neutralM_in F d h3 h5 (.inr h4)
+  | zero => exact neutral_out F h1 h2 h3 h4
 
-theorem neutralM_esc (F : Feat) (m : Bool) (x : Nat) : NeutralM F m [0x5C, x] := by
-  refine ⟨fun r => mdGo_esc m x r, fun r => capGo_esc m x r, fun r => namesGo_esc m x r, fun r hf => ?_⟩
+theorem neutralM_esc (F : Feat) (m : Nat) (x : Nat) : NeutralM F m [0x5C, x] := by
+  refine ⟨fun r => mdGo_esc F.vk m x r, fun r => capGo_esc F.vk m x r, fun r => namesGo_esc F.vk m x r,
+    fun r hf => ?_⟩
   cases m with
-  | true =>
+  | succ d =>
     simp only [List.cons_append, List.nil_append, fragGo_esc_in, Bool.and_eq_true] at hf
     exact hf.2
-  | false =>
+  | zero =>
     simp only [List.cons_append, List.nil_append, fragGo_esc_out, Bool.and_eq_true] at hf
     exact hf.2
 
-theorem neutralM_plains (F : Feat) (m : Bool) {p : List Nat} (h : ∀ c ∈ p, Plain c) : NeutralM F m p := by
+theorem neutralM_plains (F : Feat) (m : Nat) {p : List Nat} (h : ∀ c ∈ p, Plain c) : NeutralM F m p := by
   induction p with
   | nil => exact neutralM_nil F m
   | cons c p ih =>
     exact neutralM_append (p := [c]) (neutralM_plain F m (h c (by simp)))
       (ih (fun x hx => h x (by simp [hx])))
 
-theorem neutral_plain (F : Feat) {c : Nat} (h : Plain c) : Neutral F [c] := neutralM_plain F false h
-theorem neutral_esc (F : Feat) (x : Nat) : Neutral F [0x5C, x] := neutralM_esc F false x
+theorem neutral_plain (F : Feat) {c : Nat} (h : Plain c) : Neutral F [c] := neutralM_plain F 0 h
+theorem neutral_esc (F : Feat) (x : Nat) : Neutral F [0x5C, x] := neutralM_esc F 0 x
 theorem neutral_plains (F : Feat) {p : List Nat} (h : ∀ c ∈ p, Plain c) : Neutral F p :=
-  neutralM_plains F false h
+  neutralM_plains F 0 h
 
 /-- A complete class `[ body ]` is neutral outside. -/
-theorem neutral_class {F : Feat} {b : List Nat} (hb : NeutralM F true b) :
+theorem neutral_class {F : Feat} {b : List Nat} (hb : NeutralM F 1 b) :
     Neutral F (0x5B :: (b ++ [0x5D])) := by
   have e1 : ∀ r, 0x5B :: (b ++ [0x5D]) ++ r = 0x5B :: (b ++ 0x5D :: r) := by intro r; simp
   refine ⟨fun r => ?_, fun r => ?_, fun r => ?_, fun r hf => ?_⟩
@@ -365,6 +491,46 @@ theorem neutral_class {F : Feat} {b : List Nat} (hb : NeutralM F true b) :
   · rw [e1, fragGo_open, Bool.and_eq_true] at hf
     have := hb.frag _ hf.2
     rwa [fragGo_close] at this
+
+/-- A complete nested class `[ body ]` (flag `v`) is neutral inside a class. -/
+theorem neutral_nested {F : Feat} (hv : F.vk = true) {d : Nat} {b : List Nat} (hb : NeutralM F (d + 2) b) :
+    NeutralM F (d + 1) (0x5B :: (b ++ [0x5D])) := by
+  have e1 : ∀ r, 0x5B :: (b ++ [0x5D]) ++ r = 0x5B :: (b ++ 0x5D :: r) := by intro r; simp
+  refine ⟨fun r => ?_, fun r => ?_, fun r => ?_, fun r hf => ?_⟩
+  · rw [e1, hv, mdGo_nest, ← hv, hb.md, mdGo_close]
+  · rw [e1, hv, capGo_nest, ← hv, hb.cap, capGo_close]
+  · rw [e1, hv, namesGo_nest, ← hv, hb.names, namesGo_close]
+  · rw [e1, fragGo_nest F hv] at hf
+    have := hb.frag _ hf
+    rwa [fragGo_close] at this
+
+/-- The depth potential: parenthesis depth ahead, plus — for class sets — the number of `[` ahead
+(nested classes count towards the crate's nesting limit as well). -/
+def dpot (F : Feat) (l : List Nat) : Nat := md F.vk l + (if F.vk then brk l else 0)
+
+theorem dpot_neutral {F : Feat} {p : List Nat} (hp : Neutral F p) (r : List Nat) : dpot F r ≤ dpot F (p ++ r) := by
+  unfold dpot
+  rw [hp.md_eq r]
+  have := brk_append_le p r
+  split <;> omega
+
+theorem dpot_open (F : Feat) (r : List Nat) : dpot F (0x28 :: r) = dpot F r + 1 := by
+  unfold dpot
+  rw [md_cons _ _ (by decide) (by decide)]
+  simp only [brk]
+  simp; omega
+
+theorem dpot_close (F : Feat) (r : List Nat) : dpot F r ≤ dpot F (0x29 :: r) + 1 := by
+  unfold dpot
+  rw [md_cons _ _ (by decide) (by decide)]
+  simp only [brk]
+  simp; omega
+
+theorem dpot_other (F : Feat) {c : Nat} (r : List Nat) (h1 : c ≠ 0x28) (h2 : c ≠ 0x29) (h3 : c ≠ 0x5C) (h4 : c ≠ 0x5B) :
+    dpot F (c :: r) = dpot F r := by
+  unfold dpot
+  rw [md_cons _ _ h3 h4]
+  simp [brk, h1, h2, h4]
 
 theorem quants_qdrop {r r2 : List Nat} (h : QDrop r r2) : quants r2 + 1 ≤ quants r := by
   obtain ⟨x, p, rfl, hx, _⟩ := h
@@ -388,7 +554,7 @@ theorem QDrop.neutral (F : Feat) {r r2 : List Nat} (h : QDrop r r2) : ∃ p, r =
 top-level disjunction), at most 65535 `(` (capture groups), at most 65535 quantifier characters
 (loops). -/
 def withinLimits (pat : List Nat) : Bool :=
-  decide (md pat ≤ 255) && decide (opens pat ≤ 65535) && decide (quants pat ≤ 65535)
+  decide (md false pat ≤ 255) && decide (opens pat ≤ 65535) && decide (quants pat ≤ 65535)
 
 /-- The global parameters of a run: `G` the capture-group count the crate's pre-scan found
 (`group_count_max`), `K` the lexical number of capturing groups of the whole pattern. -/
@@ -399,6 +565,8 @@ structure Glob where
   N : List (List Nat × List Nat) := []
   /-- the group names of the whole pattern, lexically, in order -/
   L : List (List Nat) := []
+  /-- the flag `v` -/
+  V : Bool := false
 
 /-- Invariant of the parser state during the descent (for a state INSIDE a disjunction, i.e. after
 `consume_disjunction` has incremented `depth`).  `e`: escapes admitted (then the input consists of
@@ -407,18 +575,19 @@ structure PInv (F : Feat) (u : Bool) (Γ : Glob) (st : PState) : Prop where
   uni : st.flags.unicode = u
   nov : F.k = true → st.flags.unicodeSets = false
   frag : fragCore F st.input = true
-  chars : F.e = true → ∀ c ∈ st.input, Parse.isChar c = true
-  depth : st.depth + md st.input ≤ 256
+  chars : F.e = true ∨ F.nm = true → ∀ c ∈ st.input, Parse.isChar c = true
+  depth : st.depth + dpot F st.input ≤ 256
   groups : st.groupCount + opens st.input ≤ 65535
   loops : st.loopCount + quants st.input ≤ 65535
   /-- `G` is the capture-group count of the pre-scan (`group_count_max`) -/
   gmax : st.groupCountMax = Γ.G
   /-- `K` is the number of capturing groups of the whole pattern: those already built plus those
   still ahead -/
-  cap : st.groupCount + capOpens st.input = Γ.K
+  cap : st.groupCount + capOpens F.vk st.input = Γ.K
   /-- the name table is the pre-scan's, and has no empty entry -/
   named : st.named = Γ.N
   nok : NamedOK Γ.N
+  usets : st.flags.unicodeSets = Γ.V
 
 /-- Invariant of the grammar recognizer's state on the fragment while the crate's parser is still
 running: every decimal escape seen so far is within the pre-scan count `G` (as the crate reads it:
@@ -437,9 +606,9 @@ def Poisoned (Γ : Glob) (est : ESG.St) : Prop :=
 
 /-- What the two states have in common: the number of groups opened so far, and the names seen so
 far (followed by those still ahead: all names of the pattern). -/
-structure Joint (Γ : Glob) (est : ESG.St) (st : PState) : Prop where
+structure Joint (F : Feat) (Γ : Glob) (est : ESG.St) (st : PState) : Prop where
   groups : est.groups = st.groupCount
-  names : est.names.reverse ++ lexNames st.input = Γ.L
+  names : est.names.reverse ++ lexNames F.vk st.input = Γ.L
 
 /-- The recognizer's state only grows. -/
 structure Grows (est est' : ESG.St) : Prop where
@@ -470,28 +639,28 @@ theorem PInv.drop {F : Feat} {u : Bool} {Γ : Glob} {st : PState} (h : PInv F u 
   have h1 := h.depth; have h2 := h.groups; have h3 := h.loops; have h4 := h.frag
   have h5 := h.chars; have h6 := h.cap
   rw [hi] at h1 h2 h3 h4 h5 h6
-  rw [hp.md_eq r] at h1
   rw [hp.cap_eq r] at h6
   have := quants_append_le p r
   have := opens_append_le p r
-  exact ⟨h.uni, h.nov, hp.frag' h4, fun he c hc => h5 he c (by simp [hc]), h1, by simp only; omega,
-    by simp only; omega, h.gmax, h6, h.named, h.nok⟩
+  have := dpot_neutral hp r
+  exact ⟨h.uni, h.nov, hp.frag' h4, fun he c hc => h5 he c (by simp [hc]), by simp only; omega, by simp only; omega,
+    by simp only; omega, h.gmax, h6, h.named, h.nok, h.usets⟩
 
 theorem PInv.tail {F : Feat} {u : Bool} {Γ : Glob} {st : PState} (h : PInv F u Γ st) {c : Nat} {r : List Nat}
     (hi : st.input = c :: r) (h1 : c ≠ 0x28) (h2 : c ≠ 0x29) (h3 : c ≠ 0x5C) (h4 : c ≠ 0x5B) :
     PInv F u Γ { st with input := r } :=
   h.drop (p := [c]) hi (neutral_out F h1 h2 h3 h4)
 
-theorem Joint.drop {F : Feat} {Γ : Glob} {est : ESG.St} {st : PState} (h : Joint Γ est st) {p r : List Nat}
-    (hi : st.input = p ++ r) (hp : Neutral F p) : Joint Γ est { st with input := r } := by
+theorem Joint.drop {F : Feat} {Γ : Glob} {est : ESG.St} {st : PState} (h : Joint F Γ est st) {p r : List Nat}
+    (hi : st.input = p ++ r) (hp : Neutral F p) : Joint F Γ est { st with input := r } := by
   have h2 := h.names
   rw [hi, hp.names_eq r] at h2
   exact ⟨h.groups, h2⟩
 
-theorem Joint.tail {F : Feat} {Γ : Glob} {est : ESG.St} {st : PState} (h : Joint Γ est st) {c : Nat} {r : List Nat}
+theorem Joint.tail {F : Feat} {Γ : Glob} {est : ESG.St} {st : PState} (h : Joint F Γ est st) {c : Nat} {r : List Nat}
     (hi : st.input = c :: r) (h1 : c ≠ 0x28) (h2 : c ≠ 0x29) (h3 : c ≠ 0x5C) (h4 : c ≠ 0x5B) :
-    Joint Γ est { st with input := r } :=
-  h.drop (F := F) (p := [c]) hi (neutral_out F h1 h2 h3 h4)
+    Joint F Γ est { st with input := r } :=
+  h.drop (p := [c]) hi (neutral_out F h1 h2 h3 h4)
 
 /-! ## One iteration of the term loop -/
 
